@@ -38,6 +38,71 @@ def in_text(text_lines, rng4):
     return not (sl == el and sc > ec)
 
 
+def illtyped_contexts(quick):
+    """every expression form (each operator x operand types, the forms with a spelling of their own) as initialiser of a
+    variable of a type it cannot have: a type error whose range is that of the expression"""
+    from .. import opmatrix
+    H = 'Binde "Duden/Ausgabe" ein.\n'
+    stmts = []
+    for label, ts, build, rt in opmatrix.cells():
+        if label.startswith("init:"):
+            continue
+        ops = [opmatrix.lit(t, opmatrix.pool(t)[1 % len(opmatrix.pool(t))]) for t in ts]
+        for minimal in (False, True):
+            try:
+                e = gen.pp_expr(build(ops), minimal)
+            except (ValueError, KeyError, TypeError):
+                continue
+            stmts.append(("Die Zahl" if rt == "T" else "Der Text", e))
+    extra = ["die 2. Wurzel von 16", "die 3. Wurzel von (2 plus 6)", "die (1 plus 1). Wurzel von 16,0", "der Logarithmus von 8 zur Basis 2",
+             "der Betrag von (0 minus 3)", "die Länge von \"abc\"", "die Größe von 1", "der Standardwert von einer Zahl",
+             "eine leere Zahlen Liste", "eine Liste, die aus 1, 2 besteht", "3 Mal 7", "1 als Kommazahl", "wahr, wenn 1 gleich 1 ist",
+             "(1, falls wahr, ansonsten 2)", "1 hoch 2", "(1 durch 2)", "nicht wahr", "entweder wahr, oder falsch", "-(-3)",
+             "1 um 2 Bit nach Links verschoben", "logisch nicht 1", "1 logisch und 3", "1 kontra 3", "1 logisch oder 3"]
+    for e in extra:
+        stmts.append(("Der Text", e))
+    out = []
+    per = 40
+    step = 3 if quick else 1
+    stmts = stmts[::step] + [("Der Text", e) for e in extra]
+    for i in range(0, len(stmts), per):
+        src = H + "".join("%s falsch_%d ist %s.\n" % (a, i + j, e) for j, (a, e) in enumerate(stmts[i:i + per]))
+        out.append(("illtyped-context:%d" % (i // per), {"main.ddp": src}))
+    return out
+
+
+def import_clashes():
+    """two modules export the same thing; the importer of both gets a diagnostic that has to point into the importer
+    (the modules are longer than the importer, so a range taken from the wrong file falls outside)"""
+    H = 'Binde "Duden/Ausgabe" ein.\n'
+    PAD = "[ Polster ]\n" * 9
+    kinds = {
+        "variable": "Die öffentliche Zahl gleich ist %d.\n",
+        "constant": "Die öffentliche Konstante GLEICH ist %d.\n",
+        "function-name": 'Die öffentliche Funktion gleich gibt eine Zahl zurück, macht:\n\tGib %d zurück.\nUnd kann so benutzt werden:\n\t"alias nummer %d"\n',
+        "function-alias": 'Die öffentliche Funktion fn%d gibt eine Zahl zurück, macht:\n\tGib %d zurück.\nUnd kann so benutzt werden:\n\t"der gleiche alias"\n',
+        "kombination-name": 'Wir nennen die öffentliche Kombination aus\n\tder öffentlichen Zahl w mit Standardwert %d,\neinen Gleich, und erstellen sie so:\n\t"ein Gleich nummer %d"\n',
+        "kombination-alias": 'Wir nennen die öffentliche Kombination aus\n\tder öffentlichen Zahl w mit Standardwert %d,\neinen Kombi%d, und erstellen sie so:\n\t"die gleiche Kombination"\n',
+        "type-alias": "Wir nennen eine Zahl öffentlich auch eine Gleich.\n[ %d ]\n",
+        "type-definition": "Wir definieren eine Gleich öffentlich als eine Zahl.\n[ %d ]\n",
+        "operator-overload": 'Die öffentliche Funktion laenge%d mit dem Parameter z vom Typ Zahl, gibt eine Zahl zurück, macht:\n\tGib z plus %d zurück.\nUnd überlädt den "Länge" Operator.\n',
+        "cast-overload": 'Die öffentliche Funktion als_text%d mit dem Parameter z vom Typ Wahrheitswert, gibt einen Text zurück, macht:\n\tGib "%d" zurück.\nUnd überlädt den "als" Operator.\n',
+    }
+    out = []
+    for kname, tmpl in kinds.items():
+        def fill(i):
+            return tmpl % tuple([i] * tmpl.count("%d"))
+        out.append(("import-clash:%s" % kname, {"m1.ddp": H + fill(1), "m2.ddp": H + PAD + fill(2), "main.ddp": H + 'Binde "m1" ein.\nBinde "m2" ein.\n'}))
+        out.append(("import-clash-by-name:%s" % kname, {"m1.ddp": H + fill(1), "m2.ddp": H + PAD + fill(2),
+                                                          "main.ddp": H + 'Binde "m2" ein.\nBinde "m1" ein.\nSchreibe 1.\n'}))
+        # the second declaration is the importer's own, after the import
+        out.append(("import-then-own:%s" % kname, {"m2.ddp": H + PAD + fill(2), "main.ddp": H + 'Binde "m2" ein.\n' + fill(1).replace("öffentliche ", "").replace("öffentlich ", "")}))
+        # diamond: the clash arrives through two import paths
+        out.append(("import-diamond:%s" % kname, {"m1.ddp": H + fill(1), "m2.ddp": H + PAD + 'Binde "m1" ein.\n' , "m3.ddp": H + PAD + PAD + 'Binde "m1" ein.\n' + fill(3),
+                                                   "main.ddp": H + 'Binde "m2" ein.\nBinde "m3" ein.\nBinde "m1" ein.\n'}))
+    return out
+
+
 def check(res, tier):
     sd = seed()
     rng = Rng(sd)
@@ -87,6 +152,7 @@ def check(res, tier):
         ("error-at-first-token", {"main.ddp": ". Die Zahl z ist 1.\n"}),
         ("error-inside-alias-string", {"main.ddp": H + 'Die Funktion a3 mit dem Parameter p vom Typ Zahl, gibt eine Zahl zurück, macht:\n\tGib p zurück.\nUnd kann so benutzt werden:\n\t"nimm <q> statt p"\n'}),
     ]
+    corpus += illtyped_contexts(quick) + import_clashes()
     for name, files in corpus:
         reqs.append(("corpus:" + name, {"files": files, "main": "main.ddp"}))
     reqs += [(l, r) for l, r in malformed.requests(rng, ddp, base[:10], quick) if l != "short" or rng.below(4) == 0]
